@@ -233,6 +233,24 @@ class Api:
                     self.structs[t["name"]] = t
 
     # -- helpers -----------------------------------------------------------
+    def implementors(self, trait):
+        """textual Self types (primitives and Fixed struct names) of the impls
+        of a crate trait, e.g. ToFixed -> {'i8', ..., 'bool', 'f32', 'FixedI8', ...}"""
+        t = self.traits.get(trait)
+        out = set()
+        if t is None:
+            return out
+        for iid in t["inner"]["trait"].get("implementations", []):
+            it = self.idx.get(str(iid))
+            if it is None:
+                continue
+            f = it["inner"]["impl"]["for"]
+            if "primitive" in f:
+                out.add(f["primitive"])
+            elif "resolved_path" in f:
+                out.add(f["resolved_path"]["path"].split("::")[-1])
+        return out
+
     def fixed_structs(self):
         return sorted(n for n in self.structs if FIXED_RE.match(n))
 
